@@ -11,7 +11,10 @@ import "reflect"
 
 // h06Body returns a grouping body (as written in the defining module) and the same body with
 // nested uses expanded by hand (as it would be written inline).
+var h06HasAct bool
+
 func h06Body() (string, string) {
+	defer func() {}()
 	body, inline := "", ""
 	add := func(s string) { body += s; inline += s }
 	if symBool() {
@@ -27,6 +30,11 @@ func h06Body() (string, string) {
 	}
 	if symBool() {
 		add(`container slot { description "empty"; } `)
+	}
+	hasAct := symBool()
+	h06HasAct = hasAct
+	if hasAct {
+		add(`container ops { action act; action full { input { leaf i { type t; } } } } `)
 	}
 	if symBool() {
 		add(`choice ch { case c1 { leaf a1 { type string; } } leaf a2 { type t; } } `)
@@ -99,16 +107,16 @@ func H06() {
 	var m, g2 string
 	usesG := "uses g2:g;"
 	if local {
-		m = `module m { namespace "urn:m"; prefix m; import g2 { prefix g2; } ` + gdefs + `container u1 { uses g; } container u2 { uses g; } list u3 { key k; leaf k { type string; } uses g; } }`
-		g2 = `module g2 { namespace "urn:g2"; prefix g2; typedef t { type string; } identity idn; }`
+		m = `module m { yang-version 1.1; namespace "urn:m"; prefix m; import g2 { prefix g2; } ` + gdefs + `container u1 { uses g; } container u2 { uses g; } list u3 { key k; leaf k { type string; } uses g; } }`
+		g2 = `module g2 { yang-version 1.1; namespace "urn:g2"; prefix g2; typedef t { type string; } identity idn; }`
 		usesG = "uses mm:g;"
 	} else {
-		m = `module m { namespace "urn:m"; prefix m; import g2 { prefix g2; } typedef t { type string; } identity idn; container u1 { uses g2:g; } container u2 { uses g2:g; } list u3 { key k; leaf k { type string; } uses g2:g; } }`
-		g2 = `module g2 { namespace "urn:g2"; prefix g2; ` + gdefs + `}`
+		m = `module m { yang-version 1.1; namespace "urn:m"; prefix m; import g2 { prefix g2; } typedef t { type string; } identity idn; container u1 { uses g2:g; } container u2 { uses g2:g; } list u3 { key k; leaf k { type string; } uses g2:g; } }`
+		g2 = `module g2 { yang-version 1.1; namespace "urn:g2"; prefix g2; ` + gdefs + `}`
 	}
-	a := `module a { namespace "urn:a"; prefix a; import m { prefix mm; } import g2 { prefix g2; } container ua { ` + usesG + ` } }`
+	a := `module a { yang-version 1.1; namespace "urn:a"; prefix a; import m { prefix mm; } import g2 { prefix g2; } container ua { ` + usesG + ` } }`
 	// the same body written inline where the grouping is defined, in a module of its own
-	ref := `module r { namespace "urn:r"; prefix r; typedef t { type int8; } identity idn; container u1 { ` + inline + `} }`
+	ref := `module r { yang-version 1.1; namespace "urn:r"; prefix r; typedef t { type int8; } identity idn; container u1 { ` + inline + `} }`
 	// a module aiming at instance u1 only
 	aim := ""
 	aimLeafDefault := symBool()
@@ -117,7 +125,7 @@ func H06() {
 	if aimLeafDefault {
 		aim += `deviation /mm:u1/mm:lf { deviate replace { default "9"; } } `
 	}
-	d := `module d { namespace "urn:d"; prefix d; import m { prefix mm; } ` + "AIM" + `}`
+	d := `module d { yang-version 1.1; namespace "urn:d"; prefix d; import m { prefix mm; } ` + "AIM" + `}`
 	note(m + g2 + a)
 
 	ms, lerrs := hLoad(m, g2, a, ref)
@@ -164,6 +172,10 @@ func H06() {
 	}
 	if aimSlot && u1.Dir["slot"] != nil {
 		aim += `augment /mm:u1/mm:slot { leaf added { type string; } } `
+	}
+	if aimSlot && h06HasAct {
+		// into the input that the action does not write, and into the written one
+		aim += `augment /mm:u1/mm:ops/mm:act/mm:input { leaf addedin { type string; } } augment /mm:u1/mm:ops/mm:full/mm:input { leaf addedin2 { type string; } } `
 	}
 	if aim == "" {
 		return
